@@ -979,6 +979,11 @@ pub struct VerifProbe {
 
 #[cfg(basic_lang_verif)]
 impl Runtime {
+    /// The linked opcodes (disassembled), the DATA values and the address where direct code starts.
+    pub fn verif_code(&self) -> (Vec<String>, Vec<Val>, Address) {
+        self.program.verif_code()
+    }
+
     pub fn verif_probe(&self) -> VerifProbe {
         fn name(state: &State) -> &'static str {
             match state {
